@@ -28,6 +28,38 @@ def bool : P Bool
   | [] => none
   | t :: r => some (t == "1", r)
 
+/-- The latency token: `0` absent / null, `1` present and well-formed, `p:<e>,<e>,…` present with that
+`percentiles` shape (`n` = null element, a number = the id of the float under "quantile"). -/
+def pctEntry (e : String) : Option Latency.Pct :=
+  if e == "n" then some none else e.toNat?.map some
+
+def pctEntries : List String → Option (List Latency.Pct)
+  | [] => some []
+  | e :: rest =>
+    match pctEntry e, pctEntries rest with
+    | some x, some xs => some (x :: xs)
+    | _, _ => none
+
+/-- Suffix `/j:<e>,<e>` of a channel's latency token: the channel object carries a `nodes` member
+(`n` = null element, anything else = an object). -/
+def junkOf (t : String) : List Bool :=
+  match t.splitOn "/j:" with
+  | [_, j] => ((j.splitOn ",").filter (· != "")).map (· != "n")
+  | _ => []
+
+def stripJunk (t : String) : String :=
+  match t.splitOn "/j:" with
+  | e :: _ => e
+  | [] => t
+
+def e2eTok : P (Bool × List Latency.Pct)
+  | [] => none
+  | t0 :: r =>
+    let t := stripJunk t0
+    if t.startsWith "p:" then
+      (pctEntries (((t.splitOn ":").drop 1).flatMap (fun x => (x.splitOn ",").filter (· != "")))).map (fun l => ((true, l), r))
+    else some ((t == "1", []), r)
+
 def many {α : Type} (p : P α) : Nat → P (List α)
   | 0, ts => some ([], ts)
   | n + 1, ts =>
@@ -73,13 +105,14 @@ def chan : P Chan := fun ts => do
   let (glob, ts) ← int ts
   let (cc, ts) ← int ts
   let (paused, ts) ← bool ts
-  let (e2e, ts) ← bool ts
+  let up := match ts with | t :: _ => junkOf t | [] => []
+  let ((e2e, pct), ts) ← e2eTok ts
   let (cl, ts) ← counted (nullable "K" client) ts
   let cnt : Counters :=
     { depth := depth, backendDepth := bk, inFlight := inflight,
       deferred := deferred, requeue := requeue, timeout := timeout, msgCount := msg,
       zoneLocal := zone, regionLocal := region, globalMsg := glob, clientCount := cc }
-  pure ({ name := name, cnt := cnt, paused := paused, clients := cl, e2e := e2e }, ts)
+  pure ({ name := name, cnt := cnt, paused := paused, clients := cl, e2e := e2e, pct := pct, upNodes := up }, ts)
 
 def topic : P Topic := fun ts => do
   let (name, ts) ← str ts
@@ -90,12 +123,12 @@ def topic : P Topic := fun ts => do
   let (region, ts) ← int ts
   let (glob, ts) ← int ts
   let (paused, ts) ← bool ts
-  let (e2e, ts) ← bool ts
+  let ((e2e, pct), ts) ← e2eTok ts
   let (chs, ts) ← counted (nullable "C" chan) ts
   let cnt : Counters :=
     { depth := depth, backendDepth := bk, msgCount := msg,
       zoneLocal := zone, regionLocal := region, globalMsg := glob }
-  pure ({ name := name, cnt := cnt, paused := paused, channels := chs, e2e := e2e }, ts)
+  pure ({ name := name, cnt := cnt, paused := paused, channels := chs, e2e := e2e, pct := pct }, ts)
 
 def producer : P ProducerJSON := fun ts => do
   let (hostname, ts) ← str ts
@@ -210,6 +243,7 @@ def renderView (v : View) : String :=
 def faultSite : Fault → String
   | .indexOutOfRange s => "index-out-of-range:" ++ (s.replace " " "_")
   | .nilDeref s => "nil-deref:" ++ (s.replace " " "_")
+  | .nilMapWrite s => "nil-map-write:" ++ (s.replace " " "_")
 
 def viewLine (toks : List String) : String :=
   match request toks with
